@@ -21,7 +21,7 @@
       value-less node) since the last clear / remove_children(zero-length prefix) / collect
       ([C04_drift_step], [C04_drift_reset], [C04_clear_resyncs]). *)
 From Coq Require Import List NArith ZArith Bool Lia.
-From PT Require Import Slots Lookup2 History HistoryExtra.
+From PT Require Import Slots Lookup2 History HistoryExtra EntryApi InstEntry.
 From PT.Properties Require Import Common.
 Import ListNotations.
 
@@ -130,7 +130,36 @@ Theorem C04_no_drift (ops : list hop) (m : pmap pfx V) :
   forallb counts ops = true -> drift ops m 0 = 0%Z.
 Proof. intros H. exact (drift_counts pfx V _ _ _ _ _ _ ops H m). Qed.
 
+(** The Entry API handle by handle: ANY sequence of method calls on one entry handle
+    ([get], [get_mut], [key], [insert], [or_insert*], [and_modify], the [OccupiedEntry] and
+    [VacantEntry] methods incl. [OccupiedEntry::remove], user closures that panic) keeps
+    [len() = number of entries] — except in the recorded known class [occupied_reuse]: another
+    accessor after [OccupiedEntry::remove] on the SAME handle ([C04_entry_reuse_refuted]). *)
+Theorem C04_entry_chain (Hw : (1 <= w)%N) (m : pmap pfx V) (q : pfx) (acts : list (eact V)) :
+  wfm w V (root m) -> okp w q -> len m = nent m -> occupied_reuse V acts = false ->
+  let m' := fst (t_entry_chain w fl V m q acts) in
+  len m' = nent m' /\ (is_empty m' = true <-> entries (root m') = []).
+Proof.
+  intros Hwf Hq Hc Hr m'.
+  assert (Hc' : Slots.cinv pfx V m') by
+    exact (entry_chain_cinv pfx V _ _ _ _ _ _ _ _ _ (laws w fl Hw) m q acts Hc Hwf Hq Hr).
+  split; [exact (cinv_len pfx V _ Hc') | exact (cinv_is_empty pfx V _ Hc')].
+Qed.
+
 End C04.
+
+Theorem C04_entry_reuse_refuted :
+  exists (m : pmap pfx nat) (q : pfx) (acts : list (eact nat)),
+    wfm 8 nat (root m) /\ okp 8 q /\ len m = Z.of_nat (length (entries (root m))) /\
+    let m' := fst (t_entry_chain 8 Generic nat m q acts) in
+    len m' <> Z.of_nat (length (entries (root m'))).
+Proof.
+  exists wm, wq, [OccRemove; OccInsert 7%nat].
+  destruct entry_chain_refuted as (Hwf & Hq & Hc & _ & _ & _ & _ & He & Hn & _).
+  split; [exact Hwf|]. split; [exact Hq|]. split; [exact Hc|].
+  cbv zeta. unfold t_entry_chain. fold (w_chain wm wq [OccRemove; OccInsert 7%nat]).
+  unfold len. rewrite Hn, He. discriminate.
+Qed.
 
 (** sets: [PrefixSet<P>] is [PrefixMap<P, ()>]; [len]/[is_empty] of the set are those of the map *)
 Corollary C04_sets (w : N) (fl : flavour) (ops : list (hop unit)) (k : nat) :
@@ -195,3 +224,5 @@ Print Assumptions C04_clear_resyncs.
 Print Assumptions C04_no_drift.
 Print Assumptions C04_sets.
 Print Assumptions C04_view_refuted.
+Print Assumptions C04_entry_chain.
+Print Assumptions C04_entry_reuse_refuted.
